@@ -15,7 +15,7 @@ MCOps == {"insert", "try_insert", "get", "get_entry", "get_lru", "touch", "peek"
           "peek_entry", "peek_lru", "peek_mru", "contains", "remove", "remove_entry",
           "remove_lru", "remove_mru", "mutate", "set_max_size", "retain", "clear",
           "reserve", "try_reserve", "shrink_to", "shrink_to_fit", "len", "is_empty",
-          "current_size", "max_size", "capacity", "debug", "new", "drop"}
+          "current_size", "max_size", "capacity", "debug", "hasher", "new", "drop"}
 
 (* MC_Tomb: probe group width scaled down to 2, so that tombstones (which  *)
 (* native tables only have from 32 buckets) exist in 4- and 8-bucket tables *)
